@@ -387,7 +387,30 @@ def gen_stream(rng, R=None, groups=None, anomalies=True, t_scale=None):
             v["pid"] = rng.randrange(0, R)
             gsel["clean"] = False
             flags.append("recv_on_other_pid")
-        elif r < 0.57:
+        elif r < 0.66 and members and "long_gap" not in flags and "name_reuse" not in flags:
+            # silence INSIDE a group (after the single-cast phase) with a foreign helper just before its end: within the
+            # stale bound (4 x 5 s) the group must still be completed and drawn, beyond it the tool drops it
+            bc = [e for e in members if e["args"].get("Type") == "Set BCList"]
+            if bc and len(gsel["ranks"]) == 2:      # 2 ranks: the part before the cut has one sync tag, never "final"
+                a0 = bc[0]["ts"]
+                secs = rng.choice([16, 19, 19, 21, 45])
+                delta = float(secs * 1000000)
+                before = [e for e in evs if e["uid"] in gsel["uids"] and e["ts"] < a0 and e["ts"] + e["dur"] <= a0]
+                for e in evs:
+                    if e["ts"] >= a0 or e["ts"] + e["dur"] > a0:
+                        e["ts"] += delta          # everything not finished at the cut (all groups) moves behind the silence
+                if before:
+                    latest = max(e["ts"] + e["dur"] for e in before)
+                    uid[0] += 1
+                    evs.append({"ph": "X", "name": "SenRdmaSend_9 [sync=Probe_s0_r1_0] DmaO", "pid": 0, "tid": TID_O,
+                                "ts": latest + delta - _g(rng.choice([1, 2048, 4096])), "dur": _g(1), "uid": uid[0],
+                                "args": {"CollGroup": "Probe", "Peer": "1", "Type": "SingleCast", "jobhash": 1000,
+                                         "uid": uid[0]}})
+                    flags.append(f"inner_gap_{secs}s")
+                    for g in truth["groups"]:      # other groups may be split by the silence as well
+                        if g is not gsel or secs > 19:
+                            g["clean"] = False
+        elif r < 0.69:
             e0 = min(evs, key=lambda e: e["ts"])
             shift = e0["ts"]
             if base == 0 or rng.random() < 0.5:
@@ -530,9 +553,15 @@ def check_arrows(flows, slices, peer_of=None):
     return fails, match
 
 
+# anomalies of the generator that make the real code raise (malformed slices; compared by exception class in the tie)
+ERROR_FLAGS = {"nonpositive_dur", "no_dur", "unknown_type", "bad_peer", "no_peer", "no_jobhash"}
+
+
 def oracle_stream(events, truth, res):
     """property on the implementation's output for a kernel stream.  Returns list of failure dicts (kind + facts)."""
     if isinstance(res, enc.Err):
+        if not (set(truth.get("flags", [])) & ERROR_FLAGS):
+            return [{"kind": "exception_on_wellformed_stream", "exc": res.tag}]
         return []
     out, _, _, _ = res
     fails = []
@@ -658,7 +687,7 @@ IMPORTS = "From AiuModel Require Import Flow."
 
 def _sig(f):
     s = {"kind": f["kind"]}
-    for k in ("ranks", "arrows", "s", "f"):
+    for k in ("ranks", "arrows", "s", "f", "exc"):
         if k in f:
             s[k] = f[k]
     return s
@@ -720,7 +749,7 @@ def run(ctx):
             if c.get("kind") == "stream":
                 streams.append((c["events"], c["truth"], "corpus:" + fn))
     n_corpus = len(streams)
-    for k in range(ctx.pick(300, 12000)):
+    for k in range(ctx.pick(300, 4000)):
         evs, tr = gen_stream(rng, anomalies=(k % 3 != 0))
         streams.append((evs, tr, "gen"))
     kterms, kcases = [], []
@@ -752,7 +781,7 @@ def run(ctx):
 
     # ---- flow_prepare_event_data on single events
     pterms = []
-    pevs = [gen_prep_event(rng) for _ in range(ctx.pick(1000, 20000))]
+    pevs = [gen_prep_event(rng) for _ in range(ctx.pick(1000, 8000))]
     for evs, _, _ in streams[:ctx.pick(25, 400)]:
         pevs += evs
     for ev in pevs:
@@ -770,7 +799,7 @@ def run(ctx):
 
     # ---- one queue in shuffled order: detect_final / build_flows
     gterms, gcases = [], []
-    for evs, tr, _ in streams[:ctx.pick(250, 6000)]:
+    for evs, tr, _ in streams[:ctx.pick(250, 2000)]:
         hs = helpers_of(evs)
         cats = sorted({h["cat"] for h in hs})
         if not cats:
@@ -811,8 +840,8 @@ def run(ctx):
     # ---- end to end
     eterms, ecases = [], []
     t_e2e = time.time()
-    for k in range(ctx.pick(100, 1500)):
-        if time.time() - t_e2e > ctx.pick(60, 900):
+    for k in range(ctx.pick(100, 700)):
+        if time.time() - t_e2e > ctx.pick(60, 600):
             notes.append(f"end-to-end stream cut after {k} scenarios by its time budget")
             break
         opts = E2E_OPTS[k % len(E2E_OPTS)]
